@@ -224,15 +224,15 @@ def check_time_formats(ctx):
   ctx.check(ok, "FMT-time", f"{f.qualname}|frames syntax `<n>f`", ctx.where(f.module, f.node), "`<n>f` matches the frame offset pattern", "the frames syntax the writer prints is not accepted by the reader's frame-offset pattern")
   # clock time with frames: SmpteTimeCode non-drop form HH:MM:SS:FF
   tc = ix.func("ttconv.time_code:SmpteTimeCode.__str__")
-  trets = [r for r in own_nodes(tc.node) if isinstance(r, ast.Return)]
-  ndf = [i for i, r in enumerate(trets) if not (isinstance(parent(r), ast.If) and "is_drop_frame" in unparse(parent(r).test) and r in parent(r).body)]
-  for b in ndf:
-    skel = sk.of_method(tc, {}, branch=b)
+  for conds, skel, rnode in sk.of_variants(tc, {}):
+    df_conds = [(k, v) for k, v in conds.items() if "is_drop_frame" in k]
+    if df_conds and all((v if not k.startswith("not ") else not v) for k, v in df_conds):
+      continue      # the drop-frame label is never written (checked below)
     for text, vals in fmt.instantiate(skel, {"self._hours": [0, 7, 23, 99], "self._minutes": [0, 9, 59, 30], "self._seconds": [0, 5, 59, 1], "self._frames": [0, 1, 24, 59]}):
       m = re.match(pats["_CLOCK_TIME_FRAMES_RE"], text)
       got = [int(x) for x in m.groups()] if m else None
       want = [vals["self._hours"], vals["self._minutes"], vals["self._seconds"], vals["self._frames"]]
-      ctx.check(got == want, "FMT-time", f"{f.qualname}|clock_time_with_frames|{text}", ctx.where(tc.module, trets[b]), f"`{text}` read back as {got}",
+      ctx.check(got == want, "FMT-time", f"{f.qualname}|clock_time_with_frames|{text}", ctx.where(tc.module, tc.node), f"`{text}` read back as {got}",
                 f"the writer prints `{text}` for clock_time_with_frames but the reader recovers {got} instead of {want}")
   # drop-frame labels are never written: the writer refuses non-integer rates for that syntax
   w = ix.func("ttconv.imsc.writer:from_model")
